@@ -789,7 +789,9 @@ def _default_feature(fid, doc, type_s, items, setup=None):
 
 
 _default_feature("default_int", "Int defaults", "Int",
-                 [("0", Default("0", 0)), ("Neg", Default("-7", -7)), ("Max", Default("2147483647", 2147483647))])
+                 [("0", Default("0", 0)), ("Neg", Default("-7", -7)), ("Max", Default("2147483647", 2147483647)),
+                  # an external value that is a float with an integral value is a legal Int input (prints as an Int literal)
+                  ("Float", Default("25", 25.0, "25")), ("Exp", Default("1000", 1e3, "1000"))])
 _default_feature("default_float", "Float defaults (fraction, exponent, integer literal, negative zero)", "Float", [
     ("Frac", Default("1.5", 1.5, "1.5")),
     ("Exp", Default("1e3", 1000.0, "1000.0")),
